@@ -42,6 +42,8 @@ func expectedAnn(rec *ref.C06Rec) map[string]any {
 			m[k] = t
 		case int:
 			m[k] = float64(t)
+		case float64:
+			m[k] = t
 		case map[string]int:
 			mm := map[string]any{}
 			for a, b := range t {
